@@ -13,10 +13,11 @@ def pendBox (b : List Cmd) : List DL := b.filterMap (fun c => match c with | .se
 /-- dead letters the queued failed batches will produce -/
 def pendFq (fq : List (List BatchMsg)) : List DL := fq.flatMap (fun b => b.filterMap batchDL)
 
-/-- events under which the theorem is stated: no hand-off to a full fan-out queue (C27-F2 / C18-F1), and
-    none of the two dead-letter-actor commands that nothing in goakt sends during normal operation -/
-def okEv (s : Sys) : Ev → Bool
-  | .batchFail _ => s.fq.length < s.fqCap
+/-- the events of the property's universe: drops of every cause, drain-goroutine and dead-letter-actor steps, count
+    requests.  Excluded are only the two dead-letter-actor commands that are no traffic: `PublishDeadletters`
+    (nothing in goakt sends it) and a restart of the dead-letter actor (re-runs `handlePostStart`).
+    Since fix f8d2f6b a hand-off to a full fan-out queue is no longer excluded: it is dead-lettered inline. -/
+def okEv (_s : Sys) : Ev → Bool
   | .publishAll => false
   | .restartDL => false
   | _ => true
@@ -110,6 +111,20 @@ theorem inv_push (s : Sys) (exp : List DL) (d0 : DL) (hi : Inv s exp) :
     · exact hs c' hc'
     · exact ⟨_, hc'⟩
 
+theorem inv_pushes (s : Sys) (exp : List DL) (l : List DL) (hi : Inv s exp) :
+    Inv { s with sysBox := s.sysBox ++ l.map Cmd.send } (exp ++ l) := by
+  obtain ⟨u1, u2, u3, owed, cnt, per, hs, hu⟩ := hi
+  refine ⟨u1, u2, u3, ?_, cnt, per, ?_, hu⟩
+  · intro d
+    have := owed d
+    simp [pendBox_append, pendBox_sends] at this ⊢
+    omega
+  · intro c' hc'
+    simp at hc'
+    rcases hc' with hc' | ⟨d, _, hd⟩
+    · exact hs c' hc'
+    · exact ⟨d, hd.symm⟩
+
 theorem inv_step (s : Sys) (exp : List DL) (e : Ev) (hi : Inv s exp) (hok : okEv s e = true) :
     Inv (step s e) (exp ++ expectedOf e) := by
   obtain ⟨u1, u2, u3, owed, cnt, per, hs, hu⟩ := hi
@@ -141,16 +156,21 @@ theorem inv_step (s : Sys) (exp : List DL) (e : Ev) (hi : Inv s exp) (hok : okEv
         rw [hst]
         exact inv_push s exp _ ⟨u1, u2, u3, owed, cnt, per, hs, hu⟩
   | batchFail ms =>
-    have hlt : ¬ (s.fqCap ≤ s.fq.length) := by
-      simp [okEv] at hok; omega
-    refine ⟨by simpa [step, batchFail, u3, hlt] using u1, by simpa [step, batchFail, u3, hlt] using u2,
-            by simpa [step, batchFail, u3, hlt] using u3, ?_, by simpa [step, batchFail, u3, hlt] using cnt,
-            by simpa [step, batchFail, u3, hlt] using per, by simpa [step, batchFail, u3, hlt] using hs,
-            by simpa [step, batchFail, u3, hlt] using hu⟩
-    intro d
-    have := owed d
-    simp [step, batchFail, u3, hlt, expectedOf, pendFq_append, pendFq] at this ⊢
-    omega
+    by_cases hfull : s.fqCap ≤ s.fq.length
+    · -- queue full: `publishCoalescedFailure` inline
+      have hst : step s (.batchFail ms) = { s with sysBox := s.sysBox ++ (ms.filterMap batchDL).map Cmd.send } := by
+        simp [step, batchFail, u3, hfull, foldl_drainMsg ms s u1 u2]
+      rw [hst]
+      exact inv_pushes s exp _ ⟨u1, u2, u3, owed, cnt, per, hs, hu⟩
+    · have hlt : ¬ (s.fqCap ≤ s.fq.length) := hfull
+      refine ⟨by simpa [step, batchFail, u3, hlt] using u1, by simpa [step, batchFail, u3, hlt] using u2,
+              by simpa [step, batchFail, u3, hlt] using u3, ?_, by simpa [step, batchFail, u3, hlt] using cnt,
+              by simpa [step, batchFail, u3, hlt] using per, by simpa [step, batchFail, u3, hlt] using hs,
+              by simpa [step, batchFail, u3, hlt] using hu⟩
+      intro d
+      have := owed d
+      simp [step, batchFail, u3, hlt, expectedOf, pendFq_append, pendFq] at this ⊢
+      omega
   | drain =>
     cases hfq : s.fq with
     | nil =>
